@@ -45,6 +45,16 @@ class Summary:
         self.calls = []             # (FuncInfo, lineno)
         self.external_stateful = []  # (root, method, lineno)
         self.in_progress = False
+        self.wsites = {}            # location -> set of statement ids that write it
+        self.rsites = {}            # location -> set of statement ids that read it
+
+    def w(self, loc, sid):
+        self.writes.add(loc)
+        self.wsites.setdefault(loc, set()).add(sid)
+
+    def r(self, loc, sid):
+        self.reads.add(loc)
+        self.rsites.setdefault(loc, set()).add(sid)
 
 
 class Effects:
@@ -245,6 +255,9 @@ class Effects:
                 continue
             # compound statements: scan header expressions, then bodies
             if isinstance(st, (ast.If, ast.While)):
+                if isinstance(st.test, ast.Constant):       # dead branch
+                    self._scan(fi, st.body if st.test.value else st.orelse, s, types, fresh, caught)
+                    continue
                 self._exprs(fi, [st.test], s, types, fresh, caught, st)
                 self._scan(fi, st.body, s, types, fresh, caught)
                 self._scan(fi, st.orelse, s, types, fresh, caught)
@@ -286,10 +299,11 @@ class Effects:
             for x in ([t] if not isinstance(t, (ast.Tuple, ast.List)) else t.elts):
                 if isinstance(x, (ast.Attribute, ast.Subscript)):
                     r = self.root_of(x, fi, fresh)
+                    sid = f"{fi.site}:{st.lineno}"
                     if r is not None and r[0] != 'fresh':
-                        s.writes.add((r[0], r[1], self._trim(r[2])))
+                        s.w((r[0], r[1], self._trim(r[2])), sid)
                     if isinstance(st, ast.AugAssign) and r is not None and r[0] != 'fresh':
-                        s.reads.add((r[0], r[1], self._trim(r[2])))
+                        s.r((r[0], r[1], self._trim(r[2])), sid)
         exprs = []
         for fld in ("value", "test", "msg"):
             v = getattr(st, fld, None)
@@ -306,13 +320,25 @@ class Effects:
         p = tuple(x for x in path if x != "[]")
         return p
 
+    @staticmethod
+    def _live_walk(e):
+        """ast.walk that skips branches killed by a constant test (`x if False else y`)."""
+        stack = [e]
+        while stack:
+            n = stack.pop()
+            yield n
+            if isinstance(n, ast.IfExp) and isinstance(n.test, ast.Constant):
+                stack.append(n.body if n.test.value else n.orelse)
+                continue
+            stack.extend(ast.iter_child_nodes(n))
+
     def _exprs(self, fi, exprs, s, types, fresh, caught, st, in_raise=False):
         for e in exprs:
-            for n in ast.walk(e):
+            for n in self._live_walk(e):
                 if isinstance(n, ast.Attribute) and isinstance(n.ctx, ast.Load):
                     r = self.root_of(n, fi, fresh)
                     if r is not None and r[0] in ('self', 'param', 'global') and r[2]:
-                        s.reads.add((r[0], r[1], self._trim(r[2])))
+                        s.r((r[0], r[1], self._trim(r[2])), f"{fi.site}:{getattr(st, 'lineno', getattr(n, 'lineno', 0))}")
                 if isinstance(n, ast.Call):
                     self._call(fi, n, s, types, fresh, caught, st)
 
@@ -342,15 +368,16 @@ class Effects:
         kind = self.resolve_call(call, fi, types)
         if kind[0] == 'ext':
             name, recv = kind[1], kind[2]
+            sid = f"{fi.site}:{call.lineno}"
             if recv is not None and name in MUTATORS:
                 r = self.root_of(recv, fi, fresh)
                 if r is not None and r[0] != 'fresh':
-                    s.writes.add((r[0], r[1], self._trim(r[2])))
+                    s.w((r[0], r[1], self._trim(r[2])), sid)
             if recv is not None and name in EXTERNAL_STATEFUL:
                 r = self.root_of(recv, fi, fresh)
                 if r is not None and r[0] != 'fresh':
-                    s.writes.add((r[0], r[1], self._trim(r[2])))
-                    s.reads.add((r[0], r[1], self._trim(r[2])))
+                    s.w((r[0], r[1], self._trim(r[2])), sid)
+                    s.r((r[0], r[1], self._trim(r[2])), sid + "#ext")
                     s.external_stateful.append((r, name, call.lineno))
             return
         callee = kind[2] if kind[0] == 'class' else kind[1]
@@ -384,11 +411,13 @@ class Effects:
         for (rk, rn, path) in cs.writes:
             mapped = self._map_root(fi, rk, rn, path, recv, binding, fresh)
             if mapped is not None:
-                s.writes.add(mapped)
+                for sid in cs.wsites.get((rk, rn, path), {f"{callee.site}:?"}):
+                    s.w(mapped, sid)
         for (rk, rn, path) in cs.reads:
             mapped = self._map_root(fi, rk, rn, path, recv, binding, fresh)
             if mapped is not None:
-                s.reads.add(mapped)
+                for sid in cs.rsites.get((rk, rn, path), {f"{callee.site}:?"}):
+                    s.r(mapped, sid)
         for (r, name, ln) in cs.external_stateful:
             mapped = self._map_root(fi, r[0], r[1], r[2], recv, binding, fresh)
             if mapped is not None:
